@@ -545,10 +545,14 @@ add("K-autocorrelate_accepts_documented_orders", ["C15"], E + "k_autocorrelate_a
     functions=["encode::autocorrelate"],
     contract="autocorrelate: for every order Options::max_lpc_order admits (1..=32, K-options_setters) no panic (no debug assertion), min(order + 1, samples) lags, lag 0 is the energy", timeout=400)
 
+add("K-hdr_build_uncommon_block_size", ["C17", "C02"], S + "k_hdr_build_uncommon_block_size", tier="quick", domain="full",
+    functions=["stream::FrameHeader::build", "stream::BlockSize::to_writer"],
+    contract="FrameHeader::build of a header whose block size is Uncommon8(n) / Uncommon16(n) (every n the variant holds, i.e. also values a shorter coding could express -- what the structural parser returns for such a frame): "
+             "the 4-bit code of that variant, then n - 1 in a field of that variant's width; the built header reads back under the RFC with block size n", timeout=600)
 add("K-padding_roundtrip", ["C11", "C12"], M + "k_padding_roundtrip", tier="quick", bound="sizes <= 64 bytes; all stream contents and truncations",
     functions=["metadata::Padding::from_reader", "metadata::Padding::to_writer"],
     contract="PADDING: parse(size) consumes exactly size bytes (fails only on a short stream) and yields Padding{size}; serialising writes exactly size zero bytes; bytes() == size", timeout=300)
-add("K-application_roundtrip", ["C11", "C12"], M + "k_application_roundtrip", tier="thorough", bound="declared sizes <= 6 bytes; all contents",
+add("K-application_roundtrip", ["C11", "C12"], M + "k_application_roundtrip", tier="quick", bound="declared sizes <= 6 bytes; all contents",
     functions=["metadata::Application::from_reader", "metadata::Application::to_writer"],
     contract="APPLICATION: 32-bit id then size-4 payload bytes; size < 4 => InsufficientApplicationBlock; serialises back to the same bytes; bytes() == size", timeout=900)
 add("K-picture_type_table", ["C11", "C12"], M + "k_picture_type_table", tier="quick", domain="full",
